@@ -7,7 +7,7 @@ TRUSTED = ['Go stdlib net/url, crypto/x509, regexp, bytes.Buffer, ioutil.ReadAll
 ASSUMPTIONS = ['the independent extraction oracle is the Lean model proved panic-free and in-bounds; Go is compared with it on result class and on the complete returned bundle']
 RULE = ('valid bundles (b1/b2, with variants, primary/manifest/signatures sections) and mutants: EVERY CBOR head of the file (lengths, offsets, counts, section lengths, index entries; also inside nested byte strings) '
         'replaced by {0, v-1, v+1, file size, 2^32, 2^63, 2^64-1} (shortest and 8-byte forms), truncation at every offset (small files) / sampled, sections reordered / duplicated / renamed to unknown names / removed, '
-        'trailing-length edits, random byte edits; compared: ok+bundle / err / panic; non-trivial = mutant')
+        'trailing-length edits, random byte edits; sources handed over at a position k > 0 (nine reader kinds: read / Seek / Next / Discard behind a k-byte prefix, SectionReader window, LimitReader with bytes behind the file, os.File) x files cut j bytes short for j around 9, k, k+9; compared: ok+bundle / err / panic; non-trivial = mutant')
 EXHAUSTIVE = {}
 
 agree = Base.agree; nontrivial = Base.nontrivial; signature = Base.signature; explain = Base.explain
@@ -212,6 +212,41 @@ def index_mutants(f):
     return out
 
 
+READER_KINDS = ('bytes', 'seek', 'strings', 'section', 'window', 'buffer', 'bufio', 'limit', 'file')
+
+
+def positioned_sources(ctx, files, crafted, thorough):
+    """the input of bundle.Read is what the caller's source still delivers, not what the source was created over: the file stands
+    behind k bytes (a container header) that were read / skipped before (bundle.read.at; reader kinds with a Size method -
+    bytes.Reader, strings.Reader, SectionReader -, with Stat - os.File -, without - Buffer, bufio, LimitReader with bytes BEHIND the
+    file). RELATION walked: the file is cut j bytes short while k bytes were in front, for j below / at / above the 9-byte trailer and
+    below / at / above k and k + 9 (bytes that are not in the input must not become part of a response), plus the uncut file"""
+    ops = []
+    ks = (1, 9, 16, 64) + ((4096,) if thorough else ())
+    for fi, f in enumerate(files):
+        for k in ks:
+            js = sorted({0, 1, 8, 9, 10, 11, 14, k, k + 1, k + 8, k + 9, k + 10, max(k - 1, 0), 2 * k + 9})
+            for ji, j in enumerate(js):
+                if j >= len(f): continue
+                cut = f[:len(f) - j]
+                kinds = READER_KINDS if (fi < 4 or len(f) < 400) else READER_KINDS[(fi + ji) % 3::3]
+                if len(f) > 5000: kinds = ('bytes', 'section', 'file') if j in (0, 10, k + 9) else ()
+                for rk in kinds:
+                    ops.append((f'bundle.read.at {rk} {k}', cut))
+    # hand-made bundles (header-map faults, odd index keys) and cuts of the first files at EVERY offset through positioned sources
+    for ci, c in enumerate(crafted):
+        ops.append((f'bundle.read.at {READER_KINDS[ci % len(READER_KINDS)]} {(1, 9, 16, 64)[ci % 4]}', c))
+    for f in files[:2]:
+        for cutat in range(len(f)):
+            ops.append((f'bundle.read.at {READER_KINDS[cutat % 4]} {len(f) - cutat}', f[:cutat]))       # as many bytes in front as are missing behind
+            ops.append((f'bundle.read.at {READER_KINDS[cutat % 4]} {max(len(f) - cutat - 9, 1)}', f[:cutat]))
+    pairs = list(dict.fromkeys((op, hexs(data)) for op, data in ops))
+    uniq_files = list(dict.fromkeys(f for _, f in pairs))
+    needs = ctx.model([f'bundle.read.needs {f}' for f in uniq_files])           # one staged pass for all ops (as bundlelib.read_stage)
+    tabs = dict(zip(uniq_files, burl_tables(ctx, [[q for q in (n or '').split(' ') if ':' in q] for n in needs])))
+    ctx.both([f'{op} {f} {tabs[f][0]} {tabs[f][1]}' for op, f in pairs])
+
+
 def run(ctx):
     rng, thorough = ctx.rng, ctx.tier == 'thorough'
     w = sxg_setup(ctx)
@@ -307,3 +342,4 @@ def run(ctx):
         uniq = first + [rest[i] for i in sorted(rng.sample(range(len(rest)), max(0, min(len(rest), 20000 - len(first)))))]   # structured mutants all kept; the rest sampled
     read_stage(ctx, [hexs(x) for x in uniq])
     read_stage(ctx, [hexs(x) for x in uniq[::9]], op='bundle.read.buffer')
+    positioned_sources(ctx, files + [unhex(x) for x in bigfiles[:2]], crafted, thorough)
